@@ -14,6 +14,7 @@ import DateutilVerif.Proofs.ParserGenNum
 import DateutilVerif.Proofs.ParserGenStep
 import DateutilVerif.Proofs.ParserGenNaive
 import DateutilVerif.Proofs.ParserGenLoop
+import DateutilVerif.Proofs.ParserGenParse
 
 namespace ParserGen
 open PM Py
@@ -186,6 +187,20 @@ theorem gen_eq_model_parse_loop_partial (cls : Char → CClass) (info : Info) (f
     (Gen.P.parseLoop fuel cls info l 0 l.length {} {} [] fuzzy).map PGen.loopOut =
       PM.parseLoop cls info fuzzy l.length l.length 0 0 { l := l } :=
   PGen.parseLoop_eq cls info fuzzy hc fuel { l := l } 0 (by simpa using hf)
+
+/-- the whole of `parser._parse(timestr, dayfirst, yearfirst, fuzzy, fuzzy_with_tokens)` as written now: the flag defaults,
+    lexing, the token loop, `resolve_ymd` and the result fields, the `except (IndexError, ValueError, InvalidOperation)`
+    boundary, `info.validate(res)` (whose AST is checked at translation time to return True only), the fuzzy token
+    recombination — equal to the model's `parseTokens` on the lexed text, for every text and flag combination, given at
+    least as much fuel as there are tokens.  Named primitives on both sides: the lexer (`_timelex.split` ↦ `PM.lex`) and
+    `_recombine_skipped` (↦ `PM.recombineSkipped`); same `_century ≥ 100` hypothesis as `validate`. -/
+theorem gen_eq_model_parse_partial (cls : Char → CClass) (info : Info) (fuel : Nat) (timestr : List Char)
+    (dayfirst yearfirst : Option Bool) (fuzzy fuzzyWithTokens : Bool) (hc : 100 ≤ info.century)
+    (hf : (PM.lex cls timestr).length ≤ fuel) :
+    Gen.P.parse fuel cls info timestr dayfirst yearfirst fuzzy fuzzyWithTokens =
+      PM.parseTokens cls info { dayfirst := dayfirst, yearfirst := yearfirst, fuzzy := fuzzy,
+                                fuzzyWithTokens := fuzzyWithTokens } (PM.lex cls timestr) :=
+  PGen.parse_eq cls info fuel timestr dayfirst yearfirst fuzzy fuzzyWithTokens hc hf
 
 -- the hypotheses are satisfiable (the stock parserinfo of any year from 100 on; fuel = number of tokens)
 example : (100 : Int) ≤ (Info.default false false 2026 2000).century ∧ ([tk "10", tk " ", tk "pm"] : List Token).length ≤ 3 := by
